@@ -27,7 +27,9 @@ def abf_conf(case):
 
 
 def abf_setup(case, first=True):
-    L = ["natoms %d" % case["nd"], "samestep 1", "includecv 1", "new", "config EOF"] + abf_conf(case) + ["EOF",
+    L = ["natoms %d" % case["nd"], "samestep 1", "includecv 1"] + (["smp perm 2"] if case.get("smp") else []) + \
+        ["new", "config EOF"] + abf_conf(case) + \
+        (["harmonic {", "  name h", "  colvars v0", "  centers 0", "  forceConstant 0.0", "}"] if case.get("smp") else []) + ["EOF",
          "show cv 0 energy 0 bias 0 atomf 0"] + (["outprefix out"] if case.get("output") else [])
     return L
 
@@ -567,7 +569,11 @@ def run_opes(exe, case, scratch, timeout=30.0):
     res = []
     with W.Team(exe, n, dirs, timeout_ms=4000) as T:
         # restartfreq must not be 0: colvarbias_opes computes step % restart_out_freq
-        setup = ["natoms 1", "samestep 1", "temperature 300", "dt 1", "restartfreq 1000", "new", "config EOF"] + opes_conf(case) + \
+        # (smp: the engine's thread pool is on and a second bias is defined; a bias that talks to the other replicas must
+        # then still be updated by the main thread)
+        setup = ["natoms 1", "samestep 1", "temperature 300", "dt 1", "restartfreq 1000"] + (["smp perm 2"] if case.get("smp") else []) + \
+                ["new", "config EOF"] + opes_conf(case) + \
+                (["harmonic {", "  name h", "  colvars v0", "  centers 0", "  forceConstant 0.0", "}"] if case.get("smp") else []) + \
                 ["EOF", "show cv 0 energy 0 bias 0 atomf 0"]
         for r in T.all_do(setup, timeout):
             if not any(x.startswith("CONFIG err=ok") for x in r):
